@@ -16,6 +16,7 @@ use crate::variant::*;
 use super::in_inclusive_range16;
 use super::in_range16;
 
+#[cfg_attr(feature = "hsivonen_encoding_rs_verif", derive(Debug, Clone, PartialEq, Eq, Hash))]
 enum Gb18030Pending {
     None,
     One(u8),
@@ -38,6 +39,7 @@ impl Gb18030Pending {
     }
 }
 
+#[cfg_attr(feature = "hsivonen_encoding_rs_verif", derive(Debug, Clone, PartialEq, Eq, Hash))]
 pub struct Gb18030Decoder {
     first: Option<u8>,
     second: Option<u8>,
@@ -444,6 +446,7 @@ fn encode_hanzi(_: u16, bmp_minus_unified_start: u16) -> (u8, u8) {
     gbk_hanzi_encode(bmp_minus_unified_start)
 }
 
+#[cfg_attr(feature = "hsivonen_encoding_rs_verif", derive(Debug, Clone, PartialEq, Eq, Hash))]
 pub struct Gb18030Encoder {
     extended: bool,
 }
